@@ -10,6 +10,7 @@ import (
 
 	"ibcverif/interp"
 	"ibcverif/load"
+	"ibcverif/term"
 )
 
 // ---------------------------------------------------------------- store writers (E4)
@@ -20,6 +21,9 @@ type StoreOp struct {
 	Op     string // set / delete
 	Layout string // layout string of the key ({s} if unknown)
 	Where  string
+	Segs   []term.Seg // key segments
+	Prefix []term.Seg // prefix of the prefix store the key is written through, if any
+	Store  term.ID
 }
 
 func isKVWriteMethod(c *ssa.CallCommon) (string, bool) {
@@ -149,13 +153,19 @@ func (c *Ctx) StoreOps(which string) []StoreOp {
 			if len(ev.Args) <= ki {
 				continue
 			}
-			lay := e.T.LayoutString(e.T.Layout(ev.Args[ki]))
-			id := op + "|" + lay + "|" + P.Pos(ev.Instr.Pos())
+			segs := e.T.Layout(ev.Args[ki])
+			// a prefix store contributes its prefix to the absolute key
+			var pre []term.Seg
+			if st := e.T.Get(ev.Args[0]); st.Op == "call:prefix.NewStore" && len(st.Args) == 2 {
+				pre = e.T.Layout(st.Args[1])
+			}
+			lay := e.T.LayoutString(segs)
+			id := op + "|" + e.T.LayoutString(pre) + lay + "|" + P.Pos(ev.Instr.Pos())
 			if seen[id] {
 				continue
 			}
 			seen[id] = true
-			out = append(out, StoreOp{Fn: k, Op: op, Layout: lay, Where: P.Pos(ev.Instr.Pos())})
+			out = append(out, StoreOp{Fn: k, Op: op, Layout: lay, Where: P.Pos(ev.Instr.Pos()), Segs: segs, Prefix: pre, Store: ev.Args[0]})
 		}
 	}
 	c.Stats["store_write_sites"] = len(out)
